@@ -3,6 +3,7 @@
 package main
 
 import (
+	"fmt"
 	"strings"
 	"math/big"
 	"math/rand"
@@ -1158,11 +1159,40 @@ func (g *Gen) NextTx() Op {
 	k := g.r.Intn(tot)
 	for _, x := range ws {
 		if k < x.w {
-			return x.f()
+			return g.withDry(x.f())
 		}
 		k -= x.w
 	}
 	return g.genSend()
+}
+
+// withDry: now and then an op is preceded by an execution on a branch of the state that is thrown away (a failing multi-message
+// transaction, a simulation): the op's own message, or a bet parameter update that lowers the minimum amount (then the wager is
+// placed between the lowered and the stored minimum and must be refused).  Whatever that branch did must not be visible afterwards.
+func (g *Gen) withDry(o Op) Op {
+	switch o.Kind {
+	case "WAG", "SWAG":
+		min := g.c.Cfg.Bet.Constraints.MinAmount.Int64()
+		if min > 2 && g.chance(0.03) {
+			o.Dry = "betprm:2:0"
+			o.Amount = bi(2 + g.r.Int63n(min-2))
+			g.stats["dry_params_then_wager_below_minimum"]++
+			return o
+		}
+		if g.chance(0.015) {
+			o.Dry = fmt.Sprintf("betprm:%d:%d", min*1000, min-1) // a raised minimum and fee on the discarded branch
+			g.stats["dry_params_raised"]++
+			return o
+		}
+	}
+	switch o.Kind {
+	case "WAG", "SWAG", "DEP", "SDEP", "WDR", "SWDR", "MADD", "MUPD", "MRES", "PROP", "VOTE":
+		if g.chance(0.02) {
+			o.Dry = "self"
+			g.stats["dry_self"]++
+		}
+	}
+	return o
 }
 
 // Observe refreshes the generator's view after an executed op.
